@@ -242,6 +242,14 @@ func TestVerifDebMgr(t *testing.T) {
 		{Kind: "new", Sess: 0, Hold: -1}, {Kind: "bfd", BFD: []int{100, 200}, SleepUs: 0},
 		{Kind: "bfd", BFD: []int{300, 200}, SleepUs: 0}, {Kind: "bfd", BFD: []int{300, 400}, SleepUs: 0},
 	}})
+	// fixed second history: a Set that only exchanges the community lists of two prefixes (same prefixes, same
+	// communities overall), then one that moves a community back: each must be loaded
+	hs = append(hs, vMgrHist{Base: []vSess{base}, Stepwise: true, Ops: []vMgrOp{
+		{Kind: "new", Sess: 0, Hold: -1},
+		{Kind: "set", Sess: 0, Advs: []vAdv{{Prefix: "172.16.1.10/32", Comms: []string{"65000:100"}}, {Prefix: "172.16.1.11/32", Comms: []string{"65000:200"}}}},
+		{Kind: "set", Sess: 0, Advs: []vAdv{{Prefix: "172.16.1.10/32", Comms: []string{"65000:200"}}, {Prefix: "172.16.1.11/32", Comms: []string{"65000:100"}}}},
+		{Kind: "set", Sess: 0, Advs: []vAdv{{Prefix: "172.16.1.10/32", Comms: []string{"65000:100", "65000:200"}}, {Prefix: "172.16.1.11/32", Comms: []string{}}}},
+	}})
 	for len(hs) < n {
 		hs = append(hs, vMgrGen(r))
 	}
